@@ -113,9 +113,19 @@ def release_key(d_start, d_end, rlen):
 # ------------------------------------------------------------------------------------------------
 # running the real code
 
-def iterate(kind, reads, *, hd, radius, cap, pooling, sched, cache, tags):
+def write_bam(path, reads):
+    """Coordinate-sorted BAM of the given (R1, R2) tuples (the real input format of the tagger)."""
+    import bamgen
+    flat = [r for pair in reads for r in pair if r is not None]
+    bamgen.write_bam(path, HDR, flat, sort=True, index=False)
+    return path
+
+
+def iterate(kind, reads, *, hd, radius, cap, pooling, sched, cache, tags, bam=None):
     """One run of the real MoleculeIterator. Returns (molecules, raised): molecules = list of
-    {at, ov, recs:[{id, dup, rc, af, tf}]} (tags=True, after write_tags) or {at, ids} (tags=False)."""
+    {at, ov, recs:[{id, dup, rc, af, tf}]} (tags=True, after write_tags) or {at, ids} (tags=False).
+    bam: path of a BAM file to read instead of the iterable (pysam.AlignmentFile -> MatePairIterator inside the
+    MoleculeIterator); consumption cannot be observed then and `at` is the number of fragments."""
     from singlecellmultiomics.molecule import MoleculeIterator
     mcls, fcls = classes()[kind]
     consumed = [0]
@@ -129,12 +139,13 @@ def iterate(kind, reads, *, hd, radius, cap, pooling, sched, cache, tags):
     if cap:
         margs['max_associated_fragments'] = cap
     fargs = {'umi_hamming_distance': hd, 'assignment_radius': radius}
-    it = MoleculeIterator(source(), mcls, fcls, perform_qflag=False, pooling_method=pooling,
+    handle = pysam.AlignmentFile(bam) if bam else None
+    it = MoleculeIterator(handle if bam else source(), mcls, fcls, perform_qflag=False, pooling_method=pooling,
                           check_eject_every=sched, molecule_class_args=margs, fragment_class_args=fargs)
     out, raised = [], ''
     try:
         for m in it:
-            at = consumed[0]
+            at = consumed[0] if not bam else len(reads)
             if tags:
                 ov = any(r.has_tag('RR') and 'overflow' in str(r.get_tag('RR')).split(',') for r in m.iter_reads())
                 m.write_tags()
@@ -151,6 +162,8 @@ def iterate(kind, reads, *, hd, radius, cap, pooling, sched, cache, tags):
                 out.append({'at': at, 'ids': [int([r for r in frag if r is not None][0].query_name[1:]) for frag in m]})
     except Exception as ex:      # a crash of the code under test on a legal input is an observation
         raised = type(ex).__name__
+    if handle is not None:
+        handle.close()
     return out, raised
 
 
@@ -235,7 +248,7 @@ def gen_library(rng, tier):
             'dup_mode': dup_mode}, frs
 
 
-def run_library(cfg, frs, rng, tid, retag=True):
+def run_library(cfg, frs, rng, tid, retag=True, via_bam=False):
     kind = cfg['kind']
     built = []
     for i, d in enumerate(frs):
@@ -264,8 +277,11 @@ def run_library(cfg, frs, rng, tid, retag=True):
                          cache=cache, tags=True)
     rounds.append(r1)
     if retag and not raised:
+        bam = write_bam(os.path.join(os.getcwd(), 'retag_%d.bam' % tid), reads) if via_bam else None
         r2, raised2 = iterate(kind, reads, hd=cfg['hd'], radius=cfg['radius'], cap=cfg['cap'], pooling=cfg['pooling'], sched=None,
-                              cache=cache, tags=True)
+                              cache=cache, tags=True, bam=bam)
+        if bam:
+            os.remove(bam)
         rounds.append(r2)
         raised = raised2
     ev = {'ev': 'lib', 'tid': tid, 'kind': kind, 'hd': cfg['hd'], 'radius': cfg['radius'], 'cap': cfg['cap'], 'cache': cache,
@@ -321,12 +337,23 @@ def mode_c06(emit, tier, rng):
             continue
         tid += 1
         emit(run_library(cfg, frs, rng, tid))
+    # history through a real BAM file: round 1 tagged in memory, written coordinate-sorted, round 2 reads the file
+    # (order of equal coordinates may change, so only configurations whose partition does not depend on the order)
+    nb, done = (25 if tier == 'quick' else 400), 0
+    while done < nb:
+        cfg, frs = gen_library(rng, tier)
+        if not frs or cfg['kind'] == 'plain':
+            continue
+        cfg.update(hd=0, cap=0, radius=0)
+        tid += 1
+        done += 1
+        emit(dict(run_library(cfg, frs, rng, tid, via_bam=True), via='bam'))
 
 
 # ------------------------------------------------------------------------------------------------
 # C07: schedules
 
-def run_schedules(kind, cfg, frs, rng, tid, scheds=None, poolings=(0, 1), model=None):
+def run_schedules(kind, cfg, frs, rng, tid, scheds=None, poolings=(0, 1), model=None, via_bam=False):
     built = []
     for d in frs:
         pair, s, e = build(kind, 0, d, rng)
@@ -345,11 +372,14 @@ def run_schedules(kind, cfg, frs, rng, tid, scheds=None, poolings=(0, 1), model=
     if scheds is None:
         scheds = [None] + list(range(0, n + 1))
     runs = []
+    bam = write_bam(os.path.join(os.getcwd(), 'seq_%d.bam' % tid), reads) if via_bam else None
     for pooling in poolings:
         for sched in scheds:
             emits, raised = iterate(kind, reads, hd=cfg['hd'], radius=cfg['radius'], cap=0, pooling=pooling, sched=sched,
-                                    cache=cfg['cache'], tags=False)
+                                    cache=cfg['cache'], tags=False, bam=bam)
             runs.append({'sched': -1 if sched is None else sched, 'pooling': pooling, 'raised': raised, 'emits': emits})
+    if bam:
+        os.remove(bam)
     return {'ev': 'sched', 'tid': tid, 'kind': kind, 'hd': cfg['hd'], 'radius': cfg['radius'], 'cap': 0, 'cache': cfg['cache'],
             'readlen': cfg['readlen'], 'frags': frags, 'runs': runs, 'model': model or []}
 
@@ -447,6 +477,11 @@ def mode_c07(emit, tier, rng, scenario_file):
         kind, cfg, frs = gen_sequence(rng, tier)
         tid += 1
         emit(run_schedules(kind, cfg, frs, rng, tid))
+    # the same through a coordinate-sorted BAM file and the MatePairIterator inside the MoleculeIterator
+    for _ in range(20 if tier == 'quick' else 300):
+        kind, cfg, frs = gen_sequence(rng, tier)
+        tid += 1
+        emit(dict(run_schedules(kind, cfg, frs, rng, tid, via_bam=True), via='bam'))
 
 
 def undescribe(kind, ev, fr):
